@@ -38,6 +38,7 @@ def burstLibOK : Option Ref → List Obs → Bool
     else burstLibOK lastFinal r
 
 structure St where
+  fed : List (Id × Id × Nat) := []           -- blocks fed so far (id, parent, height)
   evs : List Obs := []                       -- live events so far
   canon : Option (List Ref) := none          -- last snapshot
   fails : List (String × String) := []
@@ -69,6 +70,8 @@ def run (body : List (List String)) : List (String × String) :=
     let hubLib : Option Ref := (s.evs.filter (·.step == .irreversible)).getLast?.map (·.ref)
     let head : Option Ref := live.bind (fun c => c.stack.getLast?)
     match o with
+    | "op" :: "blk" :: i :: p :: n :: _ =>
+      { s with evs := s.evs ++ ls.filterMap parseEv, fed := s.fed ++ [(tokId i, tokId p, n.toNat?.getD 0)] }
     | "op" :: "blk" :: _ => { s with evs := s.evs ++ ls.filterMap parseEv }
     | ["op", "snapshot"] =>
       let canon := ls.findSome? (fun l => match l with
@@ -121,7 +124,16 @@ def run (body : List (List String)) : List (String × String) :=
       if !ok then s else
       let nondecr := (bf.zip (bf.drop 1)).all (fun (a, b) => a.num ≤ b.num)
       let nodup := bf.all (fun r => (bf.filter (·.id == r.id)).length == 1)
-      if nondecr && nodup && bf.all (·.num ≥ _n) then s else s.fail "C09" "with-forks snapshot is not each retained block once in non-decreasing height"
+      let s := if nondecr && nodup && bf.all (·.num ≥ _n) then s else s.fail "C09" "with-forks snapshot is not each retained block once in non-decreasing height"
+      -- completeness: every block received at or above the hub's LIB height is retained (C18), so it is in the snapshot
+      -- when it is at or above the requested number — whether or not it links to the head yet
+      match hubLib with
+      | none => s
+      | some l =>
+        (match s.fed.find? (fun (x : Id × Id × Nat) => decide (x.2.2 ≥ _n) && decide (x.2.2 ≥ l.num) && x.1 != x.2.1 && x.1 != "" &&
+            !(bf.any (·.id == x.1))) with
+         | some x => s.fail "C09" s!"with-forks snapshot from {_n} misses the retained block {x.1}#{x.2.2}"
+         | none => s)
     | ["op", "fromcursor", idx, st, _, _, l] =>
       let idx := idx.toNat?.getD 0
       let step := (Step.ofName st).getD .new
